@@ -88,10 +88,12 @@ type jcase struct {
 	Since    int64   `json:"since_rank"`
 	Lo       int64   `json:"lo"`
 	Hi       int64   `json:"hi"`
-	OwnIndex bool    `json:"own_index"` // the restore target gets a series file + index of its own
-	ViaShard bool    `json:"via_shard"` // the restore target is a tsdb.Shard: Shard.Restore (restore, close, reopen) / Shard.Import
+	OwnIndex bool    `json:"own_index"`     // the restore target gets a series file + index of its own
+	SnapOff  bool    `json:"snapshots_off"` // the action is first attempted with cache snapshots disabled (Compactor.DisableSnapshots, what Shard.Free / SetCompactionsEnabled(false) do), then retried after re-enabling if it failed
+	ViaShard bool    `json:"via_shard"`     // the restore target is a tsdb.Shard: Shard.Restore (restore, close, reopen) / Shard.Import
 	// observations
 	Files      []jfile      `json:"impl_files"`
+	FirstErr   string       `json:"impl_first_err,omitempty"` // error class of the attempt with snapshots disabled
 	Err        string       `json:"impl_err,omitempty"`
 	Members    []jmember    `json:"impl_members"`
 	RestoreErr string       `json:"impl_restore_err,omitempty"`
@@ -466,6 +468,8 @@ func errClass(err error) string {
 		return "no-such-file"
 	case strings.Contains(s, "no values written"):
 		return "no-values"
+	case strings.Contains(s, "snapshots disabled"):
+		return "snapshots-disabled"
 	}
 	return "other: " + s
 }
@@ -516,14 +520,34 @@ func runCase(w *vh.W, c *jcase) {
 	var buf bytes.Buffer
 	var aerr error
 	c.Err, c.RestoreErr, c.Members, c.Files, c.SeriesB = "", "", []jmember{}, []jfile{}, nil
-	if p := vh.Guard(func() {
-		if c.Action == "backup" {
-			aerr = a.Backup(&buf, "", rankTime(c.Since))
-		} else {
-			aerr = a.Export(&buf, "", time.Unix(0, c.Lo), time.Unix(0, c.Hi))
+	attempt := func() error {
+		var err error
+		if p := vh.Guard(func() {
+			if c.Action == "backup" {
+				err = a.Backup(&buf, "", rankTime(c.Since))
+			} else {
+				err = a.Export(&buf, "", time.Unix(0, c.Lo), time.Unix(0, c.Hi))
+			}
+		}); p != "" {
+			failure = "panic in " + c.Action + ": " + p
 		}
-	}); p != "" {
-		failure = "panic in " + c.Action + ": " + p
+		return err
+	}
+	c.FirstErr = ""
+	if c.SnapOff {
+		// cache snapshots disabled: the forced snapshot of a non-empty cache must fail and the
+		// action must report it (the caller retries); an archive returned with err == nil is
+		// taken at face value below
+		a.Compactor.DisableSnapshots()
+		aerr = attempt()
+		a.Compactor.EnableSnapshots()
+		if aerr != nil {
+			c.FirstErr = errClass(aerr)
+			buf.Reset()
+			aerr = attempt()
+		}
+	} else {
+		aerr = attempt()
 	}
 	c.Err = errClass(aerr)
 
@@ -726,6 +750,7 @@ func runCase(w *vh.W, c *jcase) {
 	if failure != "" {
 		w.Fail(idx, failure, "")
 	}
+	w.Count("snapshots_off", fmt.Sprintf("%v first_err=%q", c.SnapOff, c.FirstErr))
 	w.Count("action", c.Action)
 	w.Count("target", map[bool]string{false: "engine", true: "shard"}[c.ViaShard])
 	w.Count("nfiles", fmt.Sprint(len(c.Files)))
@@ -858,6 +883,8 @@ func errCode(s string) string {
 		return "1%N"
 	case "no-values":
 		return "2%N"
+	case "snapshots-disabled":
+		return "3%N"
 	}
 	return "9%N"
 }
@@ -907,8 +934,8 @@ func caseTerm(c *jcase) string {
 	if c.SeriesB != nil {
 		ser = vh.Some(vh.N(uint64(*c.SeriesB)))
 	}
-	return fmt.Sprintf("{| c_hist := %s; c_act := %s; c_files := %s; c_err := %s; c_members := %s; c_rerr := %s; c_readA := %s; c_readB := %s; c_seriesB := %s |}",
-		vh.List(ops), act, vh.List(files), errCode(c.Err), vh.List(mem), errCode(c.RestoreErr), zzs(c.ReadA), zzs(c.ReadB), ser)
+	return fmt.Sprintf("{| c_hist := %s; c_act := %s; c_snapoff := %s; c_err1 := %s; c_files := %s; c_err := %s; c_members := %s; c_rerr := %s; c_readA := %s; c_readB := %s; c_seriesB := %s |}",
+		vh.List(ops), act, vh.Bool(c.SnapOff), errCode(c.FirstErr), vh.List(files), errCode(c.Err), vh.List(mem), errCode(c.RestoreErr), zzs(c.ReadA), zzs(c.ReadB), ser)
 }
 
 // ---- generation ----
@@ -971,6 +998,12 @@ func gen(w *vh.W) jcase {
 	}
 	c.OwnIndex = r.IntN(3) == 0
 	c.ViaShard = r.IntN(3) == 0
+	if r.IntN(4) == 0 { // action with cache snapshots disabled, mostly with data in the cache
+		c.SnapOff = true
+		if r.IntN(4) != 0 {
+			c.Steps = append(c.Steps, jstep{Op: "write", Points: []jpoint{{Series: r.IntN(nSeries), Field: r.IntN(nFields), T: int64(r.IntN(tdom)), V: int64(r.IntN(1000))}}})
+		}
+	}
 	if r.IntN(2) == 0 {
 		c.Action = "backup"
 		c.Since = int64(r.IntN(7))
@@ -1016,6 +1049,7 @@ func corpus() []jcase {
 		return c
 	}
 	viaShard := func(c jcase) jcase { c.ViaShard = true; return c }
+	snapOff := func(c jcase) jcase { c.SnapOff = true; return c }
 	two := []jstep{wr(jpoint{0, 0, 5, 10}, jpoint{1, 1, 3, 30}), snap, wr(jpoint{0, 0, 5, 11}, jpoint{0, 1, 7, 1}), snap, wr(jpoint{1, 0, 2, 12})}
 	// two interleaved files merged by CompactFull(ppb=3): blocks [0..2][3..5][6..8]
 	long := []jstep{run(0, 0, 0, 2, 4, 6, 8), snap, run(0, 0, 1, 3, 5, 7), snap, {Op: "compact", I: 0, N: 2}}
@@ -1024,6 +1058,12 @@ func corpus() []jcase {
 		viaShard(bk(0, two...)),
 		viaShard(bk(0, wr(jpoint{0, 0, 5, 7}, jpoint{1, 0, 5, 8}), snap, jstep{Op: "delete", Series: []int{0}, Lo: 0, Hi: 9})),
 		viaShard(ex(3, 5, long...)),
+		// snapshots disabled (Shard.Free / SetCompactionsEnabled(false)) with data only in the
+		// cache: the backup must fail, the retry after re-enabling must be complete
+		snapOff(bk(0, two...)),
+		snapOff(viaShard(bk(0, wr(jpoint{1, 1, 4, 44})))),
+		snapOff(bk(0, wr(jpoint{0, 0, 5, 10}), snap)), // empty cache: nothing to snapshot, no error
+		snapOff(ex(0, 9, two...)),
 		bk(2, two...), // incremental: since == mtime of file 0 (strict >)
 		bk(3, two...), // incremental
 		bk(4, two...), // since == newest explicit mtime: only the fresh snapshot file
@@ -1053,7 +1093,7 @@ func corpus() []jcase {
 
 func main() {
 	w := vh.New("C38", "From Verif Require Import Base.Prelude Model.C01 Model.C38.", "C38.case", "C38.check")
-	w.Rule = "random histories (4-16 ops) over 2 series x 2 fields x timestamps 0..11: writes (1-6 points, sometimes a long run of one key), snapshots, CompactFull(ppb=3) of contiguous file runs + Replace, series range deletes (tombstone files); then file mtimes are set to ranks 1..5 and either Backup(since rank 0..6; 0 = full) + Restore into a fresh empty engine, or Export(lo<=hi in -1..12, or the full domain) + Import into a fresh empty engine; the target is a bare tsm1.Engine (Engine.Restore/Import; 1/3 with a series file + index of its own) or, 1/3 of the cases, a tsdb.Shard (Shard.Restore = restore + close + reopen, Shard.Import — what Store.RestoreShard/ImportShard call); every key is read back from both sides. 20 hand-picked cases first (since == mtime boundaries, tombstones, block-aligned / straddling / disjoint / min=lo&max=hi export ranges, a file overlapping the range with no block in it, an entirely deleted compaction). Non-trivial: >=2 writes, >=1 TSM file and >=1 readable point. Distinct: distinct Gallina terms."
+	w.Rule = "random histories (4-16 ops) over 2 series x 2 fields x timestamps 0..11: writes (1-6 points, sometimes a long run of one key), snapshots, CompactFull(ppb=3) of contiguous file runs + Replace, series range deletes (tombstone files); then file mtimes are set to ranks 1..5 and either Backup(since rank 0..6; 0 = full) + Restore into a fresh empty engine, or Export(lo<=hi in -1..12, or the full domain) + Import into a fresh empty engine; 1/4 of the actions are first attempted with cache snapshots disabled (Compactor.DisableSnapshots, mostly with points only in the cache) and retried after re-enabling if they fail; the target is a bare tsm1.Engine (Engine.Restore/Import; 1/3 with a series file + index of its own) or, 1/3 of the cases, a tsdb.Shard (Shard.Restore = restore + close + reopen, Shard.Import — what Store.RestoreShard/ImportShard call); every key is read back from both sides. 20 hand-picked cases first (since == mtime boundaries, tombstones, block-aligned / straddling / disjoint / min=lo&max=hi export ranges, a file overlapping the range with no block in it, an entirely deleted compaction). Non-trivial: >=2 writes, >=1 TSM file and >=1 readable point. Distinct: distinct Gallina terms."
 	openShared()
 	defer closeShared()
 	var rc jcase
